@@ -12,9 +12,18 @@ use crate::wal::config::{USE_FD_BACKEND, checksum64};
 use std::collections::HashSet;
 #[cfg(target_os = "linux")]
 use std::convert::TryFrom;
+#[cfg(not(walrus_verif))]
 use std::sync::atomic::{AtomicBool, Ordering};
+#[cfg(walrus_verif)]
+use crate::wal::verif::sync::atomic::{AtomicBool, Ordering};
+#[cfg(not(walrus_verif))]
 use std::sync::mpsc;
+#[cfg(walrus_verif)]
+use crate::wal::verif::sync::mpsc;
+#[cfg(not(walrus_verif))]
 use std::sync::{Arc, Mutex};
+#[cfg(walrus_verif)]
+use crate::wal::verif::sync::{Arc, Mutex};
 
 #[cfg(target_os = "linux")]
 use std::os::unix::io::AsRawFd;
